@@ -430,7 +430,8 @@ RoundTrip ==
                        lines |-> CanonLines(case),
                        model |-> ModelOut(case),
                        \* allowed line layouts (as line lengths) of the FASTA writer for one sequence
-                       layouts |-> IF case.fmt = "fasta" /\ Len(case.seqs) = 1
+                       \* (short sequences only: the record must stay below one atomic append)
+                       layouts |-> IF case.fmt = "fasta" /\ Len(case.seqs) = 1 /\ Len(case.seqs[1]) <= 9
                                    THEN {Lens(l) : l \in Layouts(case.seqs[1], case.block)} ELSE {}]])
 
 Next == Pick \/ RoundTrip
